@@ -29,23 +29,39 @@ def in_domain(n, dt, target):
     return (n - 1) * dt >= 2.0 * max(dt, target) * (1.0 - 1e-12)
 
 
-def step_rule(new_dt, target):
-    """The returned step does not exceed the target."""
-    return bool(0 < new_dt <= target * (1.0 + STEP_SLACK))
+def step_rule(new_dt, target, slack=STEP_SLACK):
+    """The returned step does not exceed the target (slack: relative rounding of the quotient dt/target in the arithmetic
+    the two steps are given in - STEP_SLACK for double precision)."""
+    return bool(0 < new_dt <= target * (1.0 + slack))
 
 
-def ratio_kind(dt, new_dt):
+def step_arithmetic_eps(dt, target):
+    """Rounding unit of the arithmetic in which NumPy forms dt/target and dt/factor for the two steps AS GIVEN: a float32
+    record step (np.float32 or 0-d float32 array) yields a float32 returned step; np.float32 with a Python number or
+    another float32 yields a float32 quotient; everything else is double."""
+    eps = float(np.finfo(float).eps)
+    try:
+        with np.errstate(all='ignore'):
+            for d in (np.asarray(dt / target).dtype, np.asarray(dt).dtype):
+                if d.kind == 'f' and d.itemsize < 8:
+                    eps = max(eps, float(np.finfo(d).eps))
+    except Exception:
+        pass
+    return eps
+
+
+def ratio_kind(dt, new_dt, tol=RATIO_TOL):
     """('refine', k) if dt/new_dt is an integer k >= 1, ('decimate', m) if new_dt/dt is an integer m >= 2, else
     (None, ratio)."""
     if not (new_dt > 0 and math.isfinite(new_dt)):
         return None, float('nan')
     r = dt / new_dt
     k = round(r)
-    if k >= 1 and abs(r - k) <= RATIO_TOL * k:
+    if k >= 1 and abs(r - k) <= tol * k:
         return 'refine', int(k)
     q = new_dt / dt
     m = round(q)
-    if m >= 2 and abs(q - m) <= RATIO_TOL * m:
+    if m >= 2 and abs(q - m) <= tol * m:
         return 'decimate', int(m)
     return None, r
 
@@ -64,7 +80,7 @@ def retained_refining(x, y, k):
     return True, None, cnt
 
 
-def subsequence_decimating(x, y, m):
+def subsequence_decimating(x, y, m, eps=None):
     """The output is a subsequence of the input: y[i] = x[i*m] for every i with i*m <= n-1 (stride-m samples from the
     first one), optionally followed by the final sample x[n-1] when that one was not already taken.
     Tolerance, LOCAL to each compared sample: the grid point i/fl(1/m) misses the integer i*m by at most a few ulps of
@@ -76,7 +92,8 @@ def subsequence_decimating(x, y, m):
     n = len(x)
     if len(y) == 0:
         return False, 0, 0.0
-    eps = np.finfo(float).eps
+    if eps is None:             # rounding unit of the step arithmetic (double unless the steps were given in float32)
+        eps = np.finfo(float).eps
     ax = np.abs(x)
     d = np.abs(np.diff(x)) if n > 1 else np.zeros(0)
     dl = np.concatenate([[0.0], d])              # |x[j] - x[j-1]|
